@@ -36,13 +36,21 @@ theorem Aux.congr {a a' : Actor} {s : St} (h1 : a'.sigVal = a.sigVal) (h2 : a'.s
 /-! ### neutral events -/
 
 @[simp] theorem next_sendRet (s : St) (b : Bool) (m : Nat) (ok : Bool) : next s (.sendRet b m ok) = .ok s := rfl
-@[simp] theorem next_spawnRet (s : St) (r : SpawnRet) : next s (.spawnRet r) = .ok s := rfl
+theorem next_spawnRet (s : St) (r : SpawnRet) : ∃ s', next s (.spawnRet r) = .ok s' := by
+  cases r <;> exact ⟨_, rfl⟩
+@[simp] theorem next_spawnRet_ok (s : St) : next s (.spawnRet .ok) = .ok s := rfl
+@[simp] theorem next_spawnRet_registered (s : St) : next s (.spawnRet .registered) = .ok s := rfl
+theorem next_spawnRet_nolink_init (s : St) (h : s.stage = .init) : next s (.spawnRet .nolink) = .ok s := by
+  simp [next, h]
 @[simp] theorem next_emit (s : St) (p : Nat) (e : SupEv) : next s (.emit p e) = .ok s := rfl
 @[simp] theorem next_supArrive (s : St) (e : SupEv) : next s (.supArrive e) = .ok s := rfl
 @[simp] theorem next_supIs (s : St) (p : Option Nat) : next s (.supIs p) = .ok s := rfl
-@[simp] theorem next_aborted (s : St) : next s .aborted = .ok s := rfl
-@[simp] theorem next_dropped (s : St) : next s .dropped = .ok s := rfl
-@[simp] theorem next_join (s : St) (r : JoinRes) : next s (.join r) = .ok s := rfl
+theorem next_aborted (s : St) : next s .aborted = .ok (if s.stage.isOpen then s else { s with stage := .dead }) := rfl
+theorem next_aborted_open (s : St) (h : s.stage.isOpen = true) : next s .aborted = .ok s := by simp [next, h]
+theorem next_dropped_open (s : St) (h : s.stage.isOpen = true) : next s .dropped = .ok s := by simp [next, h]
+theorem next_dropped_closed (s : St) (h : s.stage.isOpen = false) :
+    next s .dropped = .ok { s with stage := .dead } := by simp [next, h]
+@[simp] theorem next_join (s : St) (r : JoinRes) : next s (.join r) = .ok { s with stage := .dead } := rfl
 @[simp] theorem next_fxJoin (s : St) (g : String) : next s (.fxJoin g) = .ok s := rfl
 @[simp] theorem next_fxReply (s : St) (k v : Nat) (b : Bool) : next s (.fxReply k v b) = .ok s := rfl
 @[simp] theorem next_fxForget (s : St) (k : Nat) (b : Bool) : next s (.fxForget k b) = .ok s := rfl
@@ -74,13 +82,14 @@ theorem cleanup_acc (a : Actor) (e : Option SupEv) (s : St) :
   · cases e <;> cases hs : a.sup <;> simp [Actor.setStatus, hs, accepts_cons]
 
 theorem finish_sim (a : Actor) (e : SupEv) (s : St) : Sim next Inv s (finish a e) := by
-  refine ⟨s, ?_, ?_⟩
+  refine ⟨{ s with stage := .dead }, ?_, ?_⟩
   · simp [finish, accepts_append next _ (cleanup_acc a (some e) s).1, accepts_cons]
   · left; simp [finish, Actor.dropPorts]
 
 theorem failSpawn_sim (a : Actor) (r : SpawnRet) (s : St) : Sim next Inv s (failSpawn a r) := by
-  refine ⟨s, ?_, ?_⟩
-  · simp [failSpawn, accepts_append next _ (cleanup_acc a none s).1, accepts_cons]
+  obtain ⟨s', hs'⟩ := next_spawnRet s r
+  refine ⟨s', ?_, ?_⟩
+  · simp [failSpawn, accepts_append next _ (cleanup_acc a none s).1, accepts_cons, hs']
   · left; simp [failSpawn, Actor.dropPorts]
 
 theorem killedOutsideLoop_sim (a : Actor) (s : St) : Sim next Inv s (killedOutsideLoop a) := by
@@ -285,6 +294,8 @@ def openStage : Cb → Stage
   | .preStart => .preOpen | .postStart => .psOpen | .handle => .hOpen .handle
   | .sup => .hOpen .sup | .postStop => .stopOpen
 
+theorem isOpen_openStage (cb : Cb) : (openStage cb).isOpen = true := by cases cb <;> rfl
+
 /-- The stage after `cb` returned `r`. -/
 def exitStage (cb : Cb) (r : Res) : Stage :=
   match cb with
@@ -461,10 +472,6 @@ theorem opPoll_sim (a : Actor) (s : St) (h : Inv a s) : Sim next Inv s (opPoll a
 
 /-! ### non-overlap, read off the automaton -/
 
-def Stage.isOpen : Stage → Bool
-  | .preOpen | .psOpen | .hOpen _ | .stopOpen => true
-  | _ => false
-
 theorem next_enter_isOpen {s s1 : St} {cb : Cb} {a : Arg} (h : next s (.enter cb a) = .ok s1) :
     s1.stage.isOpen = true := by
   simp only [next] at h
@@ -499,7 +506,7 @@ theorem opSpawn_sim (a : Actor) (s : St) (sup : Option Nat) (name : Option Strin
       split
       · split
         · split
-          · exact ⟨s, by simp [accepts_cons], Or.inr ⟨by rw [hph]; exact hs, hx⟩⟩
+          · exact ⟨s, by simp [accepts_cons, next_spawnRet_nolink_init s hinit], Or.inr ⟨by rw [hph]; exact hs, hx⟩⟩
           · exact ⟨{ s with stage := .preOpen }, by simp [accepts_cons, next, hinit], hnew _ rfl rfl rfl rfl⟩
         · exact ⟨{ s with stage := .preOpen }, by simp [accepts_cons, next, hinit], hnew _ rfl rfl rfl rfl⟩
       · exact ⟨{ s with stage := .preOpen }, by simp [accepts_cons, next, hinit], hnew _ rfl rfl rfl rfl⟩
@@ -578,11 +585,17 @@ theorem opPollSpawn_sim (a : Actor) (s : St) (supOk : Bool) (h : Inv a s) :
 theorem opDropSpawn_sim (a : Actor) (s : St) (h : Inv a s) : Sim next Inv s (opDropSpawn a) := by
   unfold opDropSpawn
   split
-  · refine ⟨s, ?_, Or.inl (by simp [Actor.dropPorts])⟩
-    simp only [andThen_snd, evs_append, evs_cons_ev, evs_cons_note, evs_nil]
-    rw [List.cons_append, List.nil_append, accepts_cons_ok next _ (next_dropped s)]
-    rw [accepts_append next _ (cleanup_acc _ none _).1]
-    rfl
+  · rename_i hph
+    rcases h with h | ⟨hs, hx⟩
+    · simp [hph] at h
+    · rw [hph] at hs
+      have hinit : s.stage = .init := hs
+      refine ⟨{ s with stage := .dead }, ?_, Or.inl (by simp [Actor.dropPorts])⟩
+      simp only [andThen_snd, evs_append, evs_cons_ev, evs_cons_note, evs_nil]
+      rw [List.cons_append, List.nil_append,
+        accepts_cons_ok next _ (next_dropped_closed s (by rw [hinit]; rfl))]
+      rw [accepts_append next _ (cleanup_acc _ none _).1]
+      rfl
   · rename_i hph
     rcases h with h | ⟨hs, hx⟩
     · simp [hph] at h
@@ -591,7 +604,8 @@ theorem opDropSpawn_sim (a : Actor) (s : St) (h : Inv a s) : Sim next Inv s (opD
       refine ⟨{ s with stage := .dead }, ?_, Or.inl ?_⟩
       · simp only [andThen_snd, evs_append, evs_cons_ev, evs_nil, evs_ite_note, List.append_nil]
         rw [List.cons_append, List.cons_append, List.nil_append]
-        rw [accepts_cons_ok next _ (next_dropped s), accepts_cons_ok next _ (next_cancelled_open s _ hst)]
+        rw [accepts_cons_ok next _ (next_dropped_open s (by rw [hst]; rfl)),
+          accepts_cons_ok next _ (next_cancelled_open s _ hst)]
         exact (cleanup_acc _ none _).1
       · simp [Actor.dropPorts]
   · exact ⟨s, rfl, h⟩
@@ -604,11 +618,14 @@ theorem opAbort_sim (a : Actor) (s : St) (h : Inv a s) : Sim next Inv s (opAbort
     · simp [h, Phase.isTask] at htask
     · refine Sim.andThen next (R1 := fun _ _ => True) ?_ ?_
       · cases hcb : a.phase.openCb with
-        | none => exact ⟨s, by simp [accepts_cons], trivial⟩
+        | none => exact ⟨_, by simp [accepts_cons, next_aborted]; rfl, trivial⟩
         | some cb =>
-          exact ⟨{ s with stage := .dead }, by simp [accepts_cons, next_cancelled_open s cb (stage_of_open hs hcb)], trivial⟩
+          have hst := stage_of_open hs hcb
+          exact ⟨{ s with stage := .dead }, by
+            simp [accepts_cons, next_aborted_open s (by rw [hst]; exact isOpen_openStage cb),
+              next_cancelled_open s cb hst], trivial⟩
       · intro a1 s1 _
-        refine ⟨s1, ?_, Or.inl (by simp [Actor.dropPorts])⟩
+        refine ⟨{ s1 with stage := .dead }, ?_, Or.inl (by simp [Actor.dropPorts])⟩
         simp only [andThen_snd, evs_append, evs_cons_ev, evs_nil]
         rw [accepts_append next _ (cleanup_acc _ _ _).1]
         simp [accepts_cons]
